@@ -137,6 +137,14 @@ def job(j):
             r['graph'] = prepared_graph(smi)
         if j.get('as_mol'):
             r['impl_mol'] = decomp(sch, Chem.MolFromSmiles(smi))
+        if j.get('combine') and '.' in smi:
+            # the mixture as ONE molecule object assembled by hand from its components (Chem.CombineMols)
+            parts = [Chem.MolFromSmiles(p_) for p_ in smi.split('.')]
+            if all(p_ is not None for p_ in parts):
+                m_ = parts[0]
+                for p_ in parts[1:]:
+                    m_ = Chem.CombineMols(m_, p_)
+                r['impl_combine'] = decomp(sch, m_)
         if j.get('mol_twice'):
             # ONE molecule object that has all its hydrogens already, handed in twice (and to another scheme in between):
             # decomposing must not write into the caller's object
